@@ -322,6 +322,94 @@ def _occurrences(n: Node, sn: str | None, loc: Loc, aliases: set[str]) -> list[t
     return out
 
 
+CONSTRUCTORS = ("__init__", "__new__", "__post_init__")
+
+
+def _rebound_attrs(model: Model) -> set[str]:
+    """Attribute names that are re-bound (`x.a = …`, `x.a += …`, `del x.a`) somewhere in the package other than on the
+    instance under construction (first parameter of `__init__` / `__new__` / `__post_init__`).  A path through any other
+    attribute denotes one object for as long as the object it starts from is the same."""
+    got = model.__dict__.get("_rebound")
+    if got is None:
+        got = set()
+        mods = list(model.repo.by_rel.values()) if model.repo is not None else [model.m]
+        for mod in mods:
+            if not (mod is model.m or mod.name == PKG or mod.name.startswith(PKG + ".")):
+                continue
+            for x in ast.walk(mod.tree):
+                if isinstance(x, ast.Attribute) and isinstance(x.ctx, (ast.Store, ast.Del)):
+                    f = enclosing_function(x)
+                    if f is not None and f.name in CONSTRUCTORS and isinstance(x.value, ast.Name) and x.value.id == _self_name(f):
+                        continue
+                    got.add(x.attr)
+                elif isinstance(x, ast.Call) and last(call_name(x)) in ("setattr", "delattr") and len(x.args) >= 2 \
+                        and isinstance(x.args[1], ast.Constant) and isinstance(x.args[1].value, str):
+                    got.add(x.args[1].value)  # reflection with a computed name is not followed (as everywhere in the framework)
+        model.__dict__["_rebound"] = got
+    return got
+
+
+def _path_aliases(model: Model, fn: ast.AST) -> dict[str, ast.AST]:
+    """Locals of ``fn`` that are a second spelling of one object path for the whole call: the local is bound exactly once,
+    by a plain assignment of a name / attribute path (`a = x.y.z`); the name the path starts from is itself bound exactly
+    once in ``fn`` (a parameter or a single-assignment local); and no attribute of the path is re-bound anywhere in the
+    package outside constructors.  Then `a` and `x.y.z` denote the same object wherever both can be evaluated, so a
+    mutation / membership test through one is one through the other.  -> {local: path expression, aliases substituted}."""
+    bind: dict[str, int] = {}
+    a_ = fn.args
+    for p in a_.posonlyargs + a_.args + a_.kwonlyargs + [x for x in (a_.vararg, a_.kwarg) if x is not None]:
+        bind[p.arg] = bind.get(p.arg, 0) + 1
+    for x in ast.walk(fn):
+        names: list[str] = []
+        if isinstance(x, ast.Name) and isinstance(x.ctx, (ast.Store, ast.Del)):
+            names = [x.id]
+        elif isinstance(x, FuncNode + (ast.ClassDef,)) and x is not fn:
+            names = [x.name]
+        elif isinstance(x, ast.alias):
+            names = [(x.asname or x.name).split(".")[0]]
+        elif isinstance(x, ast.ExceptHandler) and x.name:
+            names = [x.name]
+        elif isinstance(x, (ast.Global, ast.Nonlocal)):
+            names = list(x.names) * 2  # bound elsewhere as well: never "exactly once here"
+        elif isinstance(x, (ast.MatchAs, ast.MatchStar)) and x.name:
+            names = [x.name]
+        elif isinstance(x, ast.MatchMapping) and x.rest:
+            names = [x.rest]
+        for nm in names:
+            bind[nm] = bind.get(nm, 0) + 1
+    cand: dict[str, ast.AST] = {}
+    for s in walk_shallow(fn):
+        tg = val = None
+        if isinstance(s, ast.Assign) and len(s.targets) == 1:
+            tg, val = s.targets[0], s.value
+        elif isinstance(s, ast.AnnAssign) and s.value is not None:
+            tg, val = s.target, s.value
+        if isinstance(tg, ast.Name) and bind.get(tg.id) == 1 and isinstance(val, (ast.Name, ast.Attribute)) and dotted(val) is not None:
+            cand[tg.id] = val
+    if not cand:
+        return {}
+    rebound = _rebound_attrs(model)
+    out: dict[str, ast.AST] = {}
+
+    def resolve(e: ast.AST, seen: frozenset) -> ast.AST | None:
+        if isinstance(e, ast.Name):
+            if e.id in cand and e.id not in seen:
+                return resolve(cand[e.id], seen | {e.id})
+            return ast.Name(id=e.id, ctx=ast.Load()) if bind.get(e.id) == 1 else None
+        if isinstance(e, ast.Attribute):
+            if e.attr in rebound:
+                return None
+            base = resolve(e.value, seen)
+            return None if base is None else ast.Attribute(value=base, attr=e.attr, ctx=ast.Load())
+        return None
+
+    for nm, val in cand.items():
+        r = resolve(val, frozenset({nm}))
+        if r is not None:
+            out[nm] = r
+    return out
+
+
 class MethodView:
     """CFG of one method with suspension nodes and cached forward reachability."""
 
@@ -330,6 +418,7 @@ class MethodView:
         self.sn = _self_name(fn)
         self.cfg = CFG(fn)
         self._reach: dict[Node, set[Node]] = {}
+        self._aliases: dict[str, str] | None = None
         self.susp: list[Node] = []
         is_cm = _is_cm(fn)
         for n in self.cfg.nodes:
@@ -356,6 +445,38 @@ class MethodView:
                 and c.func.attr in self.model.nosuspend:
             return False
         return True
+
+    @property
+    def aliases(self) -> dict[str, str]:
+        """local -> text of the object path it is a second spelling of (see _path_aliases)."""
+        if self._aliases is None:
+            self._aliases = {k: ast.unparse(e) for k, e in _path_aliases(self.model, self.fn).items()}
+        return self._aliases
+
+    def canon(self, e: ast.AST | str) -> str:
+        """Text of a name / attribute path with a leading alias local replaced by the path it stands for."""
+        if isinstance(e, str):
+            e = ast.parse(e, mode="eval").body
+        parts: list[str] = []
+        cur = e
+        while isinstance(cur, ast.Attribute):
+            parts.append(cur.attr)
+            cur = cur.value
+        if isinstance(cur, ast.Name) and cur.id in self.aliases:
+            return ".".join([self.aliases[cur.id]] + parts[::-1])
+        return ast.unparse(e)
+
+    def canon_atoms(self, ats) -> list[tuple[str, bool]]:
+        """Normalised atoms with the container of a membership test (`K in C`) spelled canonically."""
+        if not self.aliases:
+            return list(ats)
+        out = []
+        for text, pol in ats:
+            e = ast.parse(text, mode="eval").body
+            if isinstance(e, ast.Compare) and len(e.ops) == 1 and isinstance(e.ops[0], (ast.In, ast.NotIn)):
+                text = f"{ast.unparse(e.left)} {'in' if isinstance(e.ops[0], ast.In) else 'not in'} {self.canon(e.comparators[0])}"
+            out.append((text, pol))
+        return out
 
     def after(self, n: Node) -> set[Node]:
         if n not in self._reach:
@@ -1014,7 +1135,9 @@ def _window_factory_kinds(chk, model: Model, v: MethodView, w: Node, t: Node, mi
 
 
 def _cycle_tests(views: dict[str, MethodView]) -> list[tuple[MethodView, Node, str, str]]:
-    """Cycle tests: `K in CHAIN` guarding a raise -> (method view, test node, text of K, text of CHAIN)."""
+    """Cycle tests: `K in CHAIN` guarding a raise -> (method view, test node, text of K, text of CHAIN).
+    CHAIN is the canonical spelling of the container (a local that is another name of the same object path for the whole
+    call is replaced by that path: MethodView.canon), so that test, push and pop meet on one text whichever spelling each uses."""
     cyc = []
     for v in views.values():
         cfg = v.cfg
@@ -1026,7 +1149,7 @@ def _cycle_tests(views: dict[str, MethodView]) -> list[tuple[MethodView, Node, s
                     for text, pol in atoms(t.ast.test, lab == "T"):
                         e = ast.parse(text, mode="eval").body
                         if pol and isinstance(e, ast.Compare) and len(e.ops) == 1 and isinstance(e.ops[0], ast.In):
-                            cyc.append((v, t, ast.unparse(e.left), ast.unparse(e.comparators[0])))
+                            cyc.append((v, t, ast.unparse(e.left), v.canon(e.comparators[0])))
     return list({(id(v), id(t)): (v, t, k, c) for v, t, k, c in cyc}.values())
 
 
@@ -1048,7 +1171,7 @@ def _chain_ops(v: MethodView, chain: str) -> tuple[list, list]:
         if n.ast is None:
             continue
         for c in exprs_in_node(n):
-            if isinstance(c, ast.Call) and isinstance(c.func, ast.Attribute) and ast.unparse(c.func.value) == chain:
+            if isinstance(c, ast.Call) and isinstance(c.func, ast.Attribute) and v.canon(c.func.value) == chain:
                 if c.func.attr in ("append", "add", "insert", "appendleft"):
                     pushes.append((n, c, c.args[-1] if c.args else None, f"{chain}.{c.func.attr}({ast.unparse(c.args[-1]) if c.args else ''})"))
                 if c.func.attr in ("remove", "pop", "discard", "popleft"):
@@ -1056,11 +1179,11 @@ def _chain_ops(v: MethodView, chain: str) -> tuple[list, list]:
                     pops.append((n, None if (c.func.attr in ("pop", "popleft") and _positional(k)) else k))
         if n.kind == "stmt" and isinstance(n.ast, ast.Assign):
             for tg in n.ast.targets:
-                if isinstance(tg, ast.Subscript) and ast.unparse(tg.value) == chain:
+                if isinstance(tg, ast.Subscript) and v.canon(tg.value) == chain:
                     pushes.append((n, n.ast, tg.slice, f"{chain}[{ast.unparse(tg.slice)}] = …"))
         if isinstance(n.ast, ast.Delete):
             for tg in n.ast.targets:
-                if isinstance(tg, ast.Subscript) and ast.unparse(tg.value) == chain:
+                if isinstance(tg, ast.Subscript) and v.canon(tg.value) == chain:
                     pops.append((n, None if _positional(tg.slice) else tg.slice))
     return pushes, pops
 
@@ -1075,7 +1198,9 @@ def _r5(chk, model: Model, views: dict[str, MethodView], store: str) -> None:
         pushes, keyed_pops = _chain_ops(v, chain)
         pops = [n for n, _k in keyed_pops]
         for c in walk_shallow(v.fn):
-            if isinstance(c, ast.Call) and any(isinstance(a, (ast.BinOp, ast.Tuple, ast.List)) and chain in ast.unparse(a) and key in ast.unparse(a) for a in list(c.args) + [k.value for k in c.keywords]):
+            if isinstance(c, ast.Call) and any(isinstance(a, (ast.BinOp, ast.Tuple, ast.List)) and key in ast.unparse(a)
+                                               and (chain in ast.unparse(a) or any(isinstance(x, (ast.Name, ast.Attribute)) and v.canon(x) == chain for x in ast.walk(a)))
+                                               for a in list(c.args) + [k.value for k in c.keywords]):
                 functional.append(c)
         if not pushes and not functional:
             raise AnchorError(f"C22.R5: the cycle chain `{chain}` is tested in {v.name} but never extended (unrecognised idiom)")
@@ -1085,7 +1210,7 @@ def _r5(chk, model: Model, views: dict[str, MethodView], store: str) -> None:
                                                any(isinstance(a, ast.Name) and a.id == v.sn for a in list(x.value.args) + [k.value for k in x.value.keywords]) for x in exprs_in_node(s))]
         for n, c, karg, optext in pushes:
             arg = ast.unparse(karg) if karg is not None else ""
-            facts = facts_at(cfg, n)
+            facts = set(v.canon_atoms(facts_at(cfg, n)))
             ok = arg == key and has_fact(facts, f"{key} in {chain}", False)
             chk.ob("C22.R5", f"the key pushed on the cycle chain was tested absent from it (`{key} in {chain}` is false on every path to the push)", ok,
                    m=m, node=c, fn=v.fn, instance="cycle-test-dominates-push",
@@ -1095,7 +1220,7 @@ def _r5(chk, model: Model, views: dict[str, MethodView], store: str) -> None:
             want = atoms(ast.parse(f"{key} in {chain}", mode="eval").body, False)
             for tt in [x for x in cfg.nodes if x.kind == "test"]:
                 for lab in ("T", "F"):
-                    if all(w in atoms(tt.ast.test, lab == "T") for w in want):
+                    if all(w in v.canon_atoms(atoms(tt.ast.test, lab == "T")) for w in want):
                         absent.append((tt, lab))
             r = _reach_user_exc(v, starts, pops, absent)
             leaks = [x for x in (cfg.exit, cfg.raise_exit) if x in r]
@@ -2079,4 +2204,42 @@ TWINS += [
         (_T_PUSH, "        state.resolving.append((resource.name, resource.cache))\n"),
         (_T_POP, "            if (resource.name, resource.cache) in state.resolving:\n                state.resolving.remove((resource.name, resource.cache))\n"),
     ]), None),
+]
+
+# ---- the chain reached through a local that is a second spelling of the same object path (MethodView.canon)
+_A_PUSH = "        in_flight = state.resolving\n        in_flight.append(resource.name)\n"
+_A_POP = "            if resource.name in in_flight:\n                in_flight.remove(resource.name)\n"
+_T_TAIL = "            state.cache[resource.name] = val\n            return val\n        finally:\n" + _T_POP
+
+TWINS += [
+    Twin("benign: tested through the attribute, pushed and popped through a local alias of the chain", _P, *multi(_P, [(_T_PUSH, _A_PUSH), (_T_POP, _A_POP)]), None),
+    Twin("benign: tested and popped through an early alias, pushed through the attribute", _P, *multi(_P, [
+        (_T_TEST, "        in_flight = state.resolving\n        if resource.name in in_flight:\n            chain = \" -> \".join(in_flight) + f\" -> {resource.name}\"\n"),
+        (_T_POP, _A_POP),
+    ]), None),
+    Twin("benign: alias of an alias, annotated, cycle test inverted into an early exit", _P, *multi(_P, [
+        (_T_PUSH, "        record = state\n        in_flight: list[str] = record.resolving\n        in_flight.append(resource.name)\n"),
+        (_T_POP, "            if resource.name not in in_flight:\n                pass\n            else:\n                in_flight.remove(resource.name)\n"),
+    ]), None),
+    Twin("chain through an alias, entry removed only on success", _P, *multi(_P, [
+        (_T_PUSH, _A_PUSH),
+        (_T_TAIL, "            state.cache[resource.name] = val\n            in_flight.remove(resource.name)\n            return val\n        finally:\n            pass\n"),
+    ]), "C22.R5"),
+    Twin("chain through an alias, name pushed after the factory ran", _P, *multi(_P, [
+        (_T_PUSH + "        try:\n            val = await resource.resolve(self)\n",
+         "        in_flight = state.resolving\n        try:\n            val = await resource.resolve(self)\n            in_flight.append(resource.name)\n"),
+        (_T_POP, _A_POP),
+    ]), "C22.R5"),
+    Twin("chain through an alias, cycle test only for cached resources", _P, *multi(_P, [
+        (_T_TEST, "        if resource.cache and resource.name in state.resolving:\n            chain = \" -> \".join(state.resolving) + f\" -> {resource.name}\"\n"),
+        (_T_PUSH, _A_PUSH), (_T_POP, _A_POP),
+    ]), "C22.R5"),
+    Twin("chain through an alias, another key pushed than the one tested", _P, *multi(_P, [
+        (_T_PUSH, "        in_flight = state.resolving\n        in_flight.append(resource.name.lower())\n"), (_T_POP, _A_POP),
+    ]), "C22.R5"),
+    Twin("descriptor object pushed through an alias of the chain, tested by name", _P, *multi(_P, [
+        (_T_DECL, "        self.resolving: list[Any] = []\n"),
+        (_T_PUSH, "        in_flight = state.resolving\n        in_flight.append(resource)\n"),
+        (_T_POP, "            if resource in in_flight:\n                in_flight.remove(resource)\n"),
+    ]), "C22.R6"),
 ]
